@@ -439,21 +439,24 @@ impl ForwardedStreamSink {
         let to_send =
             std::cmp::min(data.len() as u64, state.remaining_chunk_size.unwrap()) as usize;
         let unsent = state.sink.write(data.slice(..to_send))?;
+        // only what the sink took is gone from the chunk, the rest is offered again
+        let accepted = to_send - unsent.len();
 
         let remaining = state
             .remaining_chunk_size
             .take()
             .unwrap()
-            .saturating_sub(to_send as u64);
+            .saturating_sub(accepted as u64);
         log_id!(
             trace,
             self.id,
             "Encoded chunk: {} bytes (remaining {} bytes)",
-            to_send,
+            accepted,
             remaining
         );
         if remaining > 0 {
             state.remaining_chunk_size = Some(remaining);
+            self.state = SinkState::TransferringBodyChunked(state);
         } else {
             self.state = SinkState::WaitingChunkSuffix(SinkWaitingChunkSuffix {
                 buffer: BytesMut::with_capacity(ENCODED_CHUNK_SUFFIX.len()),
@@ -461,9 +464,11 @@ impl ForwardedStreamSink {
                 sink: state.sink,
             });
         }
-        self.fake_unsent = !data.is_empty();
+        // bytes left over after the sink took all it was offered are parser input,
+        // not back-pressure
+        self.fake_unsent = unsent.is_empty() && accepted < data.len();
 
-        Ok(data.split_off(to_send - unsent.len()))
+        Ok(data.split_off(accepted))
     }
 
     fn on_encoded_chunk_suffix(&mut self, mut data: Bytes) -> io::Result<Bytes> {
